@@ -15,6 +15,7 @@ import LyonVerif.Lemmas.PathViews
 import LyonVerif.Lemmas.PathMore
 import LyonVerif.Lemmas.PathCommands
 import LyonVerif.Lemmas.PathReversedModel
+import LyonVerif.Lemmas.AdaptersStored
 import LyonVerif.Model.Path.Polygon
 import LyonVerif.Model.Path.Commands
 
@@ -607,6 +608,261 @@ theorem no_oob_reversed [DecidableEq S] (n : Nat) (prog : Prog S) (hv : ValidPro
   simp [reversed_eq_spec n prog hv, reversed_eq_spec_points n prog hv, reversed_involutive n prog hv,
     with_attributes_eq n prog hv, last_endpoint_eq n prog hv]
 
+/-! ### command buffers: walking by event id -/
+
+/-- `next_event_id_in_path` maps the `j`-th event id the builder handed back (= the `j`-th id
+`iter` passes) to the `j+1`-th, and the last one to `None`; the read is in bounds. -/
+theorem commands_next_event_id {A : Type} (prog : List (Call Nat A)) (j id : Nat)
+    (hj : (Cmd.build prog).2[j]? = some id) :
+    Cmd.nextEventIdInPath (Cmd.build prog).1 id = some ((Cmd.build prog).2[j + 1]?) := by
+  simp only [Cmd.build, Cmd.run_emit, Cmd.run_ids, Cmd.Builder.new, List.nil_append] at hj ⊢
+  exact Cmd.nextInPath_emit _ prog [] 0 (by simp) j id hj
+
+/-- Walking by `next_event_id_in_path` from the first id enumerates exactly the event ids. -/
+theorem commands_walk_eq_ids {A : Type} (prog : List (Call Nat A)) (hne : prog ≠ []) :
+    Cmd.walkIds (Cmd.build prog).1 (Cmd.build prog).1.length 0 = some (Cmd.build prog).2 := by
+  have h0 : (Cmd.build prog).2[0]? = some 0 := by
+    simp only [Cmd.build, Cmd.run_ids, Cmd.Builder.new, List.length_nil]
+    rw [Cmd.emitIds_head]; simp [hne]
+  have hlen : (Cmd.build prog).2.length = prog.length := by
+    simp [Cmd.build, Cmd.run_ids, Cmd.emitIds_length]
+  have hge : prog.length ≤ (Cmd.build prog).1.length := by
+    simp only [Cmd.build, Cmd.run_emit, Cmd.Builder.new, List.nil_append]
+    exact Cmd.emitCmds_length_ge _ _ prog
+  have hpos : 0 < prog.length := List.length_pos_iff.mpr hne
+  have := Cmd.walk_from (Cmd.build prog).1 (Cmd.build prog).2
+    (fun j id h => commands_next_event_id prog j id h) prog.length 0 0 (Cmd.build prog).1.length
+    (by omega) (by omega) hge h0
+  simpa using this
+
+/-- Random access by walking agrees with iteration: `event(id)` over the ids reached by
+`next_event_id_in_path` from the first one = the events `iter` yields. -/
+theorem commands_events_by_walk {A : Type} (prog : List (Call Nat A)) (h : WellNested prog) :
+    Cmd.eventsByWalk (Cmd.build prog).1 = some (specEvents prog) := by
+  by_cases hne : prog = []
+  · subst hne; simp [Cmd.eventsByWalk, Cmd.build, Cmd.Builder.run, Cmd.Builder.new, specEvents, specFrom]
+  · have hcm : (Cmd.build prog).1.isEmpty = false := by
+      have hge : prog.length ≤ (Cmd.build prog).1.length := by
+        simp only [Cmd.build, Cmd.run_emit, Cmd.Builder.new, List.nil_append]
+        exact Cmd.emitCmds_length_ge _ _ prog
+      have hpos : 0 < prog.length := List.length_pos_iff.mpr hne
+      cases hc : (Cmd.build prog).1 with
+      | nil => rw [hc] at hge; simp at hge; exact absurd hge hne
+      | cons x t => rfl
+    simp only [Cmd.eventsByWalk, hcm, Bool.false_eq_true, if_false, commands_walk_eq_ids prog hne,
+      Option.bind_some]
+    exact commands_event_eq_iter prog h
+
+/-- `sub_path_cycle`: `next_event_id_in_sub_path` answers, for every event id, the next id —
+and at an End the id of that sub-path's Begin, so the ids of each sub-path form a cycle
+(`Cmd.cycleSpec`).  The back-pointer read is in bounds. -/
+theorem sub_path_cycle {A : Type} (prog : List (Call Nat A)) (h : WellNested prog) :
+    (Cmd.build prog).2.mapM (Cmd.nextEventIdInSubPath (Cmd.build prog).1)
+      = some (Cmd.cycleSpec (Cmd.build prog).2 prog 0) := by
+  simp only [Cmd.build, Cmd.run_emit, Cmd.run_ids, Cmd.Builder.new, List.nil_append]
+  exact Cmd.nextInSubPath_emit _ prog false [] 0 (by simp) h
+
+/-! ### the ids a builder hands back; `PositionStore` / `AttributeStore` -/
+
+/-- `ids_in_bounds`: every `EndpointId` returned by `BuilderWithAttributes` (begin / line_to /
+quadratic_bezier_to / cubic_bezier_to) resolves in bounds through `Index<EndpointId>` /
+`PositionStore::get_endpoint` and `Path::attributes` / `AttributeStore::get`, to exactly the
+position and attributes passed in that call. -/
+theorem ids_in_bounds (n : Nat) (prog : Prog S) (hv : ValidProg n prog) :
+    ∃ ids, ((BuilderWithAttributes.new (S := S) n).run prog).map (·.2) = some ids ∧
+      ids.mapM (stored n prog).endpointA = some (progEndpoints prog) := by
+  refine ⟨_, run_ids (BuilderWithAttributes.new (S := S) n) prog
+    (by simpa [BuilderWithAttributes.new] using hv.2) (by simp [BuilderWithAttributes.new]), ?_⟩
+  have := ids_resolve_emit (stored n prog) prog zeroPt (List.replicate n default) []
+    (by simp [stored]) (by simpa [stored] using hv.2) (by simp [stored])
+  simpa [BuilderWithAttributes.new, BuilderImpl.new, stored] using this
+
+/-- the same for `Path::builder()` (no attributes) -/
+theorem ids_in_bounds_plain {A : Type} (prog : List (Call (Pt S) A)) (h : WellNested prog) :
+    ((BuilderImpl.new (S := S)).run prog).2.mapM (buildPlain prog).endpointA
+      = some (progEndpoints (prog.map noAttr)) := by
+  rw [plain_run_ids, plain_builder_storage]
+  have := ids_resolve_emit (stored 0 (prog.map (noAttr (S := S)))) (prog.map noAttr) zeroPt [] []
+    (by simp [stored]) (by simpa [stored] using attrsOk_noAttr prog) (by simp [stored])
+  simpa [BuilderImpl.new, stored, attribStride] using this
+
+/-! ### `PathSlice` -/
+
+/-- `slice_eq`: `Path::as_slice` is the path itself (full-range slices of both arrays, same
+attribute count) — for any path, built or not; so every view of the slice is the path's view. -/
+theorem slice_eq (p : PathData S) : p.asSlice = some p := by
+  simp [PathData.asSlice, sliceRange]
+
+theorem slice_views_eq (p : PathData S) :
+    p.asSlice.bind PathData.iter = p.iter ∧
+    p.asSlice.bind PathData.iterWithAttributes = p.iterWithAttributes ∧
+    p.asSlice.map PathData.idIter = some p.idIter ∧
+    p.asSlice.bind PathData.reversedWithAttributes = p.reversedWithAttributes := by
+  simp [slice_eq]
+
+/-! ### `Path::transformed` (modelled by C16: `Adapt.applyTransform`, `Lemmas/AdaptersStored`) -/
+
+/-- The `iter` view of a transformed built path is the transformed `iter` view (C16
+`stored_transform_iter`, restated on C14's `stored`); the in-place walk reads and writes only
+inside the storage. -/
+theorem transformed_iter_eq (g : Pt S → Pt S) (n : Nat) (prog : Prog S) (hv : ValidProg n prog) :
+    (Adapt.applyTransform g (stored n prog)).iter
+      = (stored n prog).iter.map (fun evs => evs.map (Adapt.mapEvent g)) := by
+  rw [iter_eq_spec n prog hv]
+  exact Adapt.stored_transform_iter g n prog hv.1 hv.2
+
+
+/-- NOT every view of a transformed path is the transformed view: `apply_transform` skips
+`IdEvent::End`, so the copy of the first endpoint stored by `end(true)` stays untransformed, and
+that slot is what `last_endpoint` reads.  `M 0 0 L 5 0 Z` translated by `(1, 1)`:
+`last_endpoint` answers `(0, 0)`, the transformed path's first point is `(1, 1)`.
+(Finding C14-transformed-close-point-stale; the positive part is `transformed_iter_eq`.) -/
+theorem transformed_views_witness :
+    let prog : Prog Int := [.begin (0, 0) [], .line (5, 0) [], .end_ true]
+    let g : Pt Int → Pt Int := fun p => (p.1 + 1, p.2 + 1)
+    (stored 0 prog).lastEndpoint = some (some ((0, 0), [])) ∧
+    (Adapt.applyTransform g (stored 0 prog)).lastEndpoint = some (some ((0, 0), [])) ∧
+    (Adapt.applyTransform g (stored 0 prog)).iter
+      = some [Event.begin (1, 1), Event.line (1, 1) (6, 1), Event.end_ (6, 1) (1, 1) true] := by
+  decide
+
+/-- What does hold of `Path::transformed` in the current code (= `transformed_iter_eq`): the
+`iter` view of the transformed path is the transformed `iter` view.  Missing for "every view":
+`last_endpoint` when the last sub-path is closed (`transformed_views_witness`). -/
+theorem transformed_views_partial {S : Type} [Inhabited S] (g : Pt S → Pt S) (n : Nat) (prog : Prog S)
+    (hv : ValidProg n prog) :
+    (Adapt.applyTransform g (stored n prog)).iter
+      = (stored n prog).iter.map (fun evs => evs.map (Adapt.mapEvent g)) :=
+  transformed_iter_eq g n prog hv
+
+
+/-! ### the raw-pointer code of `lyon_path` and which theorem covers each of its reads
+
+`crates/path/src` contains seven `unsafe` blocks, in five functions:
+
+| Rust function (file:line) | what it does unchecked | model | used by | reads covered by |
+|---|---|---|---|---|
+| `PointIter::new` (path.rs:927) | `ptr.add(len)` (one-past-the-end pointer) | the remaining list | `Iter`, `IterWithAttributes` | — (no read) |
+| `PointIter::next` (path.rs:949) | `*self.ptr`, guarded by `ptr >= end` | `popPt` | `Iter::next`, `IterWithAttributes::{next, pop_endpoint}` | `no_oob_iter`, `no_oob_iter_with_attributes` |
+| `PointIter::advance_n` (path.rs:959) | `ptr.add(n)` after `assert!(remaining_len() >= n)` | `advanceN` | `Iter::skip_attributes`, `pop_endpoint` | the same two |
+| `IterWithAttributes::pop_endpoint` (path.rs:1104) | `slice::from_raw_parts(ptr as *const f32, num_attributes)` | `(flatPts rest).take n` after `advanceN` succeeded | `IterWithAttributes::next` | `no_oob_iter_with_attributes` |
+| `interpolated_attributes` (path.rs:1279) | `from_raw_parts(&points[idx].x, num_attributes)` after `assert!(idx + stride <= len)` | `interpolatedAttributes` | `Path/PathSlice::attributes`, `AttributeStore::get`, `first/last_endpoint`, `Reversed::next` | `no_oob_attributes`, `no_oob_reversed`, `no_oob` (first), `no_oob_reversed` (last) |
+| `CmdIter::new` / `CmdIter::next` (commands.rs:98, 108) | `ptr.add(len)`, `*self.ptr` guarded by `ptr == end` | list consumption in `Cmd.iterGo` / `Cmd.eventsGo` | `commands::{Iter, Events, PointEvents}` | `no_oob_commands` |
+
+`IdIter`, `Reversed`, `PathCommandsSlice::{event, next_event_id_*}`, `PathBuffer::get` and the
+polygon types use checked indexing only (a bad index panics, it does not read outside); their
+indices are nevertheless shown in range (`id_iter_resolves*`, `no_oob_reversed`,
+`no_oob_commands`, `path_buffer_get*`, `polygon_views_agree`).  In the model each of the reads
+above is an `Option`; the theorems below say: on storage produced by a builder from a valid
+program, every one of them is `some`. -/
+
+/-- every `PointIter::next` / `advance_n` performed by `Path::iter` is in range -/
+theorem no_oob_iter (n : Nat) (prog : Prog S) (hv : ValidProg n prog) :
+    (stored n prog).iter.isSome = true := by simp [iter_eq_spec n prog hv]
+
+/-- every `PointIter::next` / `advance_n` and every `from_raw_parts` attribute slice of
+`Path::iter_with_attributes` is in range -/
+theorem no_oob_iter_with_attributes (n : Nat) (prog : Prog S) (hv : ValidProg n prog) :
+    (stored n prog).iterWithAttributes.isSome = true := by simp [with_attributes_eq n prog hv]
+
+/-- `interpolated_attributes` (and `points[id]`) for every endpoint id a builder returned, and
+for every id `id_iter` yields -/
+theorem no_oob_attributes (n : Nat) (prog : Prog S) (hv : ValidProg n prog) :
+    (∃ ids, ((BuilderWithAttributes.new (S := S) n).run prog).map (·.2) = some ids ∧
+      (ids.mapM (stored n prog).endpointA).isSome = true) ∧
+    (resolveAll (stored n prog).endpointA (stored n prog).ctrlA (stored n prog).idIter).isSome = true := by
+  obtain ⟨ids, h1, h2⟩ := ids_in_bounds n prog hv
+  exact ⟨⟨ids, h1, by simp [h2]⟩, by simp [id_iter_resolves_attributes n prog hv]⟩
+
+/-- all endpoint and control point ids of a program are valid indices of the external stores -/
+def idsValid {A : Type} (ne nc : Nat) : List (Call Nat A) → Bool
+  | [] => true
+  | .begin p _ :: r => decide (p < ne) && idsValid ne nc r
+  | .line p _ :: r => decide (p < ne) && idsValid ne nc r
+  | .quad c p _ :: r => decide (c < nc) && decide (p < ne) && idsValid ne nc r
+  | .cubic c d p _ :: r => decide (c < nc) && decide (d < nc) && decide (p < ne) && idsValid ne nc r
+  | .end_ _ :: r => idsValid ne nc r
+
+theorem resolve_valid {A π : Type} (eps cps : List π) (prog : List (Call Nat A)) (st : Option (Nat × Nat))
+    (hv : idsValid eps.length cps.length prog = true)
+    (hst : ∀ f c, st = some (f, c) → f < eps.length ∧ c < eps.length) :
+    (resolveAll (fun i => eps[i]?) (fun i => cps[i]?) (specFrom st prog)).isSome = true := by
+  induction prog generalizing st with
+  | nil => cases st <;> simp [specFrom, resolveAll]
+  | cons c r ih =>
+    have gs : ∀ (l : List π) i, i < l.length → ∃ x, l[i]? = some x :=
+      fun l i h => ⟨l[i], List.getElem?_eq_getElem h⟩
+    cases st with
+    | none =>
+      cases c with
+      | begin p a =>
+        simp [idsValid] at hv
+        obtain ⟨x, hx⟩ := gs eps p hv.1
+        have := ih (some (p, p)) hv.2 (by intro f c h; cases h; exact ⟨hv.1, hv.1⟩)
+        cases hr : resolveAll (fun i => eps[i]?) (fun i => cps[i]?) (specFrom (some (p, p)) r) with
+        | none => simp [hr] at this
+        | some t => simp [specFrom, resolveAll, resolveEvent, hx, hr]
+      | line p a => simp [idsValid] at hv; simpa [specFrom] using ih none hv.2 (by simp)
+      | quad k p a => simp [idsValid] at hv; simpa [specFrom] using ih none hv.2 (by simp)
+      | cubic k1 k2 p a => simp [idsValid] at hv; simpa [specFrom] using ih none hv.2 (by simp)
+      | end_ cl => simp [idsValid] at hv; simpa [specFrom] using ih none hv (by simp)
+    | some fc =>
+      obtain ⟨f, c0⟩ := fc
+      obtain ⟨hf, hc⟩ := hst f c0 rfl
+      obtain ⟨xf, hxf⟩ := gs eps f hf
+      obtain ⟨xc, hxc⟩ := gs eps c0 hc
+      cases c with
+      | begin p a => simp [idsValid] at hv; simpa [specFrom] using ih (some (f, c0)) hv.2 hst
+      | line p a =>
+        simp [idsValid] at hv
+        obtain ⟨x, hx⟩ := gs eps p hv.1
+        have := ih (some (f, p)) hv.2 (by intro f' c' h; cases h; exact ⟨hf, hv.1⟩)
+        cases hr : resolveAll (fun i => eps[i]?) (fun i => cps[i]?) (specFrom (some (f, p)) r) with
+        | none => simp [hr] at this
+        | some t => simp [specFrom, resolveAll, resolveEvent, hx, hxc, hr]
+      | quad k p a =>
+        simp [idsValid] at hv
+        obtain ⟨x, hx⟩ := gs eps p hv.1.2
+        obtain ⟨y, hy⟩ := gs cps k hv.1.1
+        have := ih (some (f, p)) hv.2 (by intro f' c' h; cases h; exact ⟨hf, hv.1.2⟩)
+        cases hr : resolveAll (fun i => eps[i]?) (fun i => cps[i]?) (specFrom (some (f, p)) r) with
+        | none => simp [hr] at this
+        | some t => simp [specFrom, resolveAll, resolveEvent, hx, hy, hxc, hr]
+      | cubic k1 k2 p a =>
+        simp [idsValid] at hv
+        obtain ⟨x, hx⟩ := gs eps p hv.1.2
+        obtain ⟨y, hy⟩ := gs cps k1 hv.1.1.1
+        obtain ⟨z, hz⟩ := gs cps k2 hv.1.1.2
+        have := ih (some (f, p)) hv.2 (by intro f' c' h; cases h; exact ⟨hf, hv.1.2⟩)
+        cases hr : resolveAll (fun i => eps[i]?) (fun i => cps[i]?) (specFrom (some (f, p)) r) with
+        | none => simp [hr] at this
+        | some t => simp [specFrom, resolveAll, resolveEvent, hx, hy, hz, hxc, hr]
+      | end_ cl =>
+        simp [idsValid] at hv
+        have := ih none hv (by simp)
+        cases hr : resolveAll (fun i => eps[i]?) (fun i => cps[i]?) (specFrom none r) with
+        | none => simp [hr] at this
+        | some t => simp [specFrom, resolveAll, resolveEvent, hxf, hxc, hr]
+
+/-- every `CmdIter::next` (with its `.unwrap()`s) of `PathCommands::iter`, every index of
+`event(id)`, `next_event_id_in_path`, `next_event_id_in_sub_path` over the ids the builder
+returned, and — when the program's ids are valid indices of the external stores — every
+`endpoints[i]` / `control_points[i]` of `events` / `PointEvents`, is in range -/
+theorem no_oob_commands {A π : Type} (prog : List (Call Nat A)) (h : WellNested prog)
+    (eps cps : List π) (hids : idsValid eps.length cps.length prog = true) :
+    (Cmd.iter (Cmd.build prog).1).isSome = true ∧
+    ((Cmd.build prog).2.mapM (Cmd.event (Cmd.build prog).1)).isSome = true ∧
+    (∀ (j id : Nat), (Cmd.build prog).2[j]? = some id →
+      (Cmd.nextEventIdInPath (Cmd.build prog).1 id).isSome = true) ∧
+    ((Cmd.build prog).2.mapM (Cmd.nextEventIdInSubPath (Cmd.build prog).1)).isSome = true ∧
+    (Cmd.events (Cmd.build prog).1 eps cps).isSome = true := by
+  refine ⟨by simp [commands_iter_eq_spec prog h], by simp [commands_event_eq_iter prog h], ?_,
+    by simp [sub_path_cycle prog h], ?_⟩
+  · intro j id hj; simp [commands_next_event_id prog j id hj]
+  · rw [commands_events_eq_spec prog h]
+    exact resolve_valid eps cps prog none hids (by simp)
+
+
 /-! ### non-vacuity: the hypotheses are satisfiable by non-trivial programs -/
 
 /-- three attributes (odd: padded), a curve, a closed and a single-point sub-path -/
@@ -620,6 +876,8 @@ example : (stored 3 exampleProg).iter = some (specEvents exampleProg) :=
 example : (stored 3 exampleProg).points.length = 16 := by decide
 example : WellNested (polyProg [(0 : Int), 1, 2] true) := by decide
 example : WellNested ([.begin 0 (), .quad 1 2 (), .end_ true] : List (Call Nat Unit)) := by decide
+example : idsValid 3 3 ([.begin 0 (), .quad 1 2 (), .end_ true] : List (Call Nat Unit)) = true := by decide
+example : ([.begin 0 (), .quad 1 2 (), .end_ true] : List (Call Nat Unit)) ≠ [] := by decide
 example : ∀ q ∈ [exampleProg, exampleProg], ValidProg 3 q := by
   intro q hq; simp at hq; subst hq; exact ⟨by decide, by decide⟩
 /-- the reversed view of the model on the example, computed -/
